@@ -25,10 +25,10 @@ type resCase struct {
 
 type stepObs struct {
 	Obs
-	Offered  bool   `json:"offered"`         // a session (possibly tampered) was handed to the client for this connection
-	SessFrom int    `json:"sess_from"`       // index (in steps, initial epoch = 0) of the step in which the offered session was obtained (0: none)
-	SessKind string `json:"sess_kind"`       // ticket | sid
-	TLen     int    `json:"tlen,omitempty"`  // ticket length offered
+	Offered  bool   `json:"offered"`        // a session (possibly tampered) was handed to the client for this connection
+	SessFrom int    `json:"sess_from"`      // index (in steps, initial epoch = 0) of the step in which the offered session was obtained (0: none)
+	SessKind string `json:"sess_kind"`      // ticket | sid
+	TLen     int    `json:"tlen,omitempty"` // ticket length offered
 	Note     string `json:"note,omitempty"`
 }
 
